@@ -70,6 +70,25 @@ CHECKS = {
     note='All data is concrete here (the wire parsers are C); what is explored exhaustively is the schedule space. Relative order of '
          'service-level vs method-level managers is not asserted (the property does not fix it).',
     technique='exhaustive fault-schedule exploration of the real pipeline driven by the symx engine (schedule variables as engine choices), trace checked against a specification automaton'),
+ 'C02': dict(
+    cat='model_checking', ref='DESIGN.md section 4 (C02)',
+    text='A reference codec written from the documented conventions builds request documents with symbolic, pairwise independent '
+         'leaves and hands them to the real decompose_incoming_envelope + deserialize; the real serialize output is decoded by '
+         'the same conventions. z3 proves position-by-position equality for every leaf value inside the bounds for '
+         '{Json, Yaml, MessagePack(str/bin method key)} x ignore_wrappers x complex_as x validator. Witnesses additionally '
+         'travel through json / PyYAML / msgpack.',
+    note='One fixed universe of classes (nested object, arrays, six primitive kinds), fully populated objects, arrays <= 2. The C '
+         'encoders, YAML scalar resolution of strings like "yes" and surrogates are outside the symbolic part (they are exercised '
+         'on every path witness). MessagePackRpc envelope and polymorphic=True are not covered here (see C16).'),
+ 'C15': dict(
+    cat='model_checking', ref='DESIGN.md section 4 (C15)',
+    text='Histories of derivation/evolution operations over a fresh pool of seven models: every pair of operation kinds (quick) '
+         'and kind-triples (one in quick, all in thorough) with every target/keyword-set choice explored by the engine and the '
+         'numeric arguments symbolic; after each step z3 compares a structural snapshot (public attributes incl. symbolic ones, '
+         'ordered fields by identity, flat field order, validation verdict on a symbolic probe) of every other model with its '
+         'previous snapshot, and checks that derived models / late fields carry exactly the requested constraints.',
+    note='Hash-seed independence of field order is a process-level quantifier and is not claimed. Snapshots compare public '
+         'Attributes, never private bookkeeping.'),
 }
 
 NOT_APPLICABLE = {
